@@ -6,7 +6,7 @@ From Coq Require Import ZArith QArith String List Bool.
 Import ListNotations.
 From NV Require Import Crash.Outcome Crash.NumOps Crash.NumOpsProofs Crash.Index Crash.IndexProofs
   Crash.Lexer Crash.LexerProofs Crash.Span Crash.SpanProofs Crash.NameReg Crash.NameRegProofs
-  Crash.Defects Crash.Ledger Gen.PanicSites.
+  Crash.Defects Crash.MergeDispatch Crash.MergeDispatchProofs Crash.Ledger Gen.PanicSites.
 
 (* ---------------------------------------------------------------- (a) number primops *)
 Theorem C10_no_panic_div : forall n1 n2, no_panic (op_div n1 n2).
@@ -156,6 +156,13 @@ Proof. exact lone_cr_reaches_literal. Qed.
 
 Theorem C10_no_panic_literal_fixed : forall l, no_panic (literal_handler_fixed l).
 Proof. exact no_panic_literal_fixed. Qed.
+
+(* ---------------------------------------------------------------- merge_fields: the unreachable!() arm *)
+Theorem C10_no_panic_merge_select : forall has1 has2 p1 p2, no_panic (select_value has1 has2 p1 p2).
+Proof. exact no_panic_select_value. Qed.
+
+Theorem C10_prio_eq_is_cmp_eq : forall a b, prio_eq a b = true <-> prio_cmp a b = Eq.
+Proof. exact prio_eq_cmp. Qed.
 
 (* ---------------------------------------------------------------- the ledger *)
 Theorem C10_sites_all_covered : forall key line, In (key, line) sites -> exists c, In (key, c) ledger.
